@@ -519,3 +519,75 @@ def scale_free_guards(repo, rep, rule, T, names, type_them=False):
         else:
             rep.ok(rule, f"{fi_.file}:{node_.lineno} {fi_.short}", unparse(node_)[:80], "scale-free guard", nontrivial=False)
     return n
+
+
+def _values_stores(tree):
+    """Statements that store THROUGH the .values / .data of an object:  x.values[m] = v,  x.data[i] += v."""
+    out = []
+    for n in ast.walk(tree):
+        tgts = []
+        if isinstance(n, ast.Assign):
+            tgts = n.targets
+        elif isinstance(n, ast.AugAssign):
+            tgts = [n.target]
+        for t in tgts:
+            if isinstance(t, ast.Subscript):
+                b = t.value
+                while isinstance(b, ast.Subscript):
+                    b = b.value
+                if isinstance(b, ast.Attribute) and b.attr in ("values", "data") and not (isinstance(b.value, ast.Name) and b.value.id in ("np", "numpy")):
+                    out.append(n)
+    return out
+
+
+def lazy_safe_writes(repo, rep, rule):
+    """A store through `x.values[...]` / `x.data[...]` changes x only when x is held in memory: for a dask-backed array `.values` computes a
+    temporary, the store goes into the temporary and is lost - the lazy result silently differs from the in-memory one."""
+    if len(_values_stores(ast.parse("s.values[~(s.values >= 1)] = 1.0\nq.data[0] += 2\nnp.data[0] = 1"))) != 2:
+        raise AnalysisError(f"{rule} self-test: stores through .values / .data not recognised")
+    n = 0
+    for fi in repo.all_funcs():
+        if fi.module.name.startswith(("wavespectra.plot", "wavespectra.cli")):
+            continue
+        n += 1
+        for st in _values_stores(fi.node):
+            rep.fail(rule, fi.file, st.lineno, fi.qualname, unparse(st)[:110],
+                     "the value is changed by a store through .values / .data: for dask-backed data that attribute is a freshly computed temporary, so "
+                     "the store is lost and the lazy result differs from the in-memory one (use where / fillna / assignment of a new array)")
+    rep.ok(rule, "package", f"{n} functions", "no store through .values / .data of a labelled array")
+    return n
+
+
+def _layout_orders(tree, const):
+    out = []
+    for c in ast.walk(tree):
+        if isinstance(c, ast.Call):
+            nm = (call_name(c) or "").split(".")[-1] if call_name(c) else (c.func.attr if isinstance(c.func, ast.Attribute) else "")
+            if isinstance(c.func, ast.Attribute):
+                nm = c.func.attr
+            if nm in ("ravel", "flatten", "reshape", "asarray", "array", "copy", "astype", "tobytes", "nditer", "require", "ascontiguousarray"):
+                k = kwarg(c, "order")
+                v = const(k) if k is not None else None
+                if nm in ("ravel", "flatten") and k is None and c.args and isinstance(c.func, ast.Attribute) and not (call_name(c) or "").startswith(("np.", "numpy.")):
+                    v = const(c.args[0])
+                if isinstance(v, str) and v.upper() in ("K", "A", "F"):
+                    out.append((c, v))
+    return out
+
+
+def layout_independent_flattening(repo, rep, rule):
+    """Flattening / reshaping in the memory order of the array (order='K' / 'A') or in Fortran order gives another element sequence for a
+    Fortran-ordered or transposed input than for the C-ordered array with the same contents: results then depend on the in-memory layout."""
+    ctrl = _layout_orders(ast.parse("a = x.ravel(order='K'); b = np.ravel(x, order='A'); c = x.flatten('F'); d = x.ravel(); e = x.reshape(3, order='C')"),
+                          lambda e: e.value if isinstance(e, ast.Constant) else None)
+    if len(ctrl) != 3:
+        raise AnalysisError(f"{rule} self-test: order= idioms not recognised")
+    n = 0
+    for fi in repo.all_funcs():
+        n += 1
+        for c, v in _layout_orders(fi.node, lambda e, fi=fi: repo.const(fi.module, e)):
+            rep.fail(rule, fi.file, c.lineno, fi.qualname, unparse(c)[:100],
+                     f"order={v!r}: the elements are taken in the array's memory order (or Fortran order), so a Fortran-ordered / transposed input with "
+                     "the same contents yields another sequence than its C-ordered twin, while the coordinates it is paired with are in index order")
+    rep.ok(rule, "package", f"{n} functions", "every flatten / ravel / reshape uses index (C) order")
+    return n
